@@ -100,7 +100,7 @@ func runC11(c *eng.Ctx) {
 		Fields: []string{"VolumeLayout.writables", "VolumeLayout.vid2location"},
 		Pkg:    "weed/topology",
 		Exempt: map[string]string{
-			"weed/topology.NewVolumeLayout":          "constructor: the value is not shared yet",
+			"weed/topology.NewVolumeLayout":       "constructor: the value is not shared yet",
 			"(*weed/topology.VolumeLayout).ToMap": "status-page snapshot (unlocked read of writables): not on the write-offer / lookup paths C11 speaks about",
 		},
 	})
@@ -160,11 +160,17 @@ func runC11(c *eng.Ctx) {
 			return l
 		}
 		var updates []ssa.Instruction
-		for _, in := range eng.Find(fn, func(in ssa.Instruction) bool { mu, ok := in.(*ssa.MapUpdate); return ok && eng.MentionsField(mu.Map, "Disk.volumes") }) {
+		for _, in := range eng.Find(fn, func(in ssa.Instruction) bool {
+			mu, ok := in.(*ssa.MapUpdate)
+			return ok && eng.MentionsField(mu.Map, "Disk.volumes")
+		}) {
 			updates = append(updates, in)
 		}
 		n := 0
-		for _, in := range eng.Find(fn, func(in ssa.Instruction) bool { b, ok := in.(*ssa.BinOp); return ok && (b.Op == token.NEQ || b.Op == token.EQL) }) {
+		for _, in := range eng.Find(fn, func(in ssa.Instruction) bool {
+			b, ok := in.(*ssa.BinOp)
+			return ok && (b.Op == token.NEQ || b.Op == token.EQL)
+		}) {
 			b := in.(*ssa.BinOp)
 			x, y := b.X, b.Y
 			if !(eng.MentionsField(x, "VolumeInfo.ReadOnly") && eng.MentionsField(y, "VolumeInfo.ReadOnly")) {
@@ -247,7 +253,10 @@ func runC11(c *eng.Ctx) {
 
 	// (4) truth table of enoughCopies
 	if fn := c.NeedFunc("weed/topology", "(*VolumeLayout).enoughCopies"); fn != nil {
-		isL := func(v ssa.Value) bool { cl, ok := v.(*ssa.Call); return ok && eng.CalleeIs(cl, "topology.VolumeLocationList).Length") }
+		isL := func(v ssa.Value) bool {
+			cl, ok := v.(*ssa.Call)
+			return ok && eng.CalleeIs(cl, "topology.VolumeLocationList).Length")
+		}
 		isR := func(v ssa.Value) bool {
 			cl, ok := v.(*ssa.Call)
 			return ok && eng.CalleeIs(cl, "super_block.ReplicaPlacement).GetCopyCount")
